@@ -31,11 +31,16 @@ def accepted(O, op, a):
         return O.all([O.ge(a["position"], 0), O.lt(a["position"], 101)])
     if op == "delete_schedule":
         return O.all([O.ge(a["slot"], 0), O.lt(a["slot"], 8)])
+    if op == "create_schedule":
+        # accepted: exactly H:M without blanks; strings that are H:M only after stripping blanks carry no obligation
+        return O.all([a.get("clock_exact", True), O.not_(a.get("days_dup", False))])
     return True
 
 
 def must_reject(O, op, a):
     """arguments the statement of C02 says must raise (no command frame)"""
+    if op == "create_schedule":
+        return O.any([O.not_(a.get("clock_ok", True)), a.get("days_dup", False)])
     if op in ("control_device", "set_auto_shutdown", "set_device_name"):
         return O.not_(accepted(O, op, a))
     return False
